@@ -675,3 +675,97 @@ Proof.
   - intros t c p Hf. pose proof (ci_tasks _ HC _ _ _ Hf) as Hq.
     eapply QC_change; eauto. intros -> _ _. eauto.
 Qed.
+
+Lemma pending_of_rws s t c :
+  LkS s -> find_task (tasks s) t = Some (c, R_WaitStarted) -> run_call_pending s = true.
+Proof.
+  intros HL Hf. assert (Hh : holder s = Some t) by (eapply (lk_holder_of _ _ _ HL); eauto).
+  unfold run_call_pending. rewrite Hh, Hf. reflexivity.
+Qed.
+
+Lemma run_finish_running s :
+  st_fsm s = Running ->
+  run_finish s =
+  set_runt (cont_finished (log_hook (set_st_fsm (set_run_arg (set_started_ev s true) None) Finished) HFinished None None)
+                          (length (cont_plugins s))) (Some RT_G_fin).
+Proof. unfold run_finish. simpl. intros ->. reflexivity. Qed.
+
+Lemma CI_step_run s : LkS s -> FI s -> CI s -> CI (do_step_run s).
+Proof.
+  intros HL HF HC. pose proof HF as [HP HS]. unfold do_step_run.
+  destruct (runt s) as [x|] eqn:Er; auto.
+  assert (Hfsm : if early x then st_fsm s = Running else st_fsm s = Finished).
+  { destruct (early x) eqn:Ee; [eapply sc_early | eapply sc_late]; eauto. }
+  assert (Hst : nl_started s = true).
+  { destruct (nl_started s) eqn:E; auto. destruct (ci_fresh _ HC E) as (Hcr & _).
+    rewrite Hcr in Hfsm. destruct (early x); discriminate. }
+  assert (Hra : early x = true -> run_arg s <> None).
+  { intros He. apply (sc_ra _ _ _ _ _ _ HS). right. rewrite He in Hfsm. exact Hfsm. }
+  assert (Hrws : forall t c, find_task (tasks s) t = Some (c, R_WaitStarted) ->
+                             st_fsm s = Running /\ rws_ok (Some x) = true).
+  { intros t c Hf. rewrite <- Er. apply (ci_tasks _ HC _ _ _ Hf). reflexivity. }
+  pose proof (ci_sev _ HC x Er) as Hsev.
+  destruct x; simpl in Hfsm.
+  - (* RT_New *)
+    destruct (run_arg s) eqn:Era; [|exfalso; apply Hra; auto].
+    apply (CI_notask_step s); auto; fsimpl; ci_side.
+    + intros x E. inversion E; subst. discriminate.
+    + intros t c Hf. destruct (Hrws _ _ Hf). auto.
+  - (* RT_Created *)
+    simpl. destruct (run_arg s) eqn:Era; [|exfalso; apply Hra; auto].
+    apply (CI_notask_step s); auto; fsimpl; ci_side.
+    + intros x E. inversion E; subst. discriminate.
+    + intros t c Hf. destruct (Hrws _ _ Hf). auto.
+  - (* RT_G_start *)
+    apply (CI_notask_step s); auto; fsimpl; ci_side.
+    intros t c Hf. destruct (Hrws _ _ Hf). auto.
+  - (* RT_WaitChild *)
+    destruct (run_call_pending s) eqn:Epend; auto. destruct (pending_exit s) as [o|] eqn:Epe; auto.
+    simpl. destruct (run_arg s) eqn:Era; [|exfalso; apply Hra; auto].
+    apply (CI_notask_step s); auto; fsimpl; ci_side.
+    intros t c Hf. rewrite (pending_of_rws _ _ _ HL Hf) in Epend. discriminate.
+  - (* RT_G_end *)
+    rewrite run_finish_running by assumption.
+    match goal with |- context [cont_finished ?y ?n] => destruct (cf_trace n y) as (new & Et & _) end.
+    apply (CI_notask_step s); auto; simpl; rewrite ?cf_nls, ?cf_nlc, ?cf_holder, ?cf_lockq, ?cf_tasks, ?cf_fsm, ?cf_sev; simpl; ci_side.
+    + rewrite Et. simpl. apply incl_appr. incl_tac.
+    + intros t c Hf. destruct (Hrws _ _ Hf). discriminate.
+  - (* RT_G_fin *)
+    apply (CI_notask_step s); auto; fsimpl; ci_side.
+    intros t c Hf. destruct (Hrws _ _ Hf). discriminate.
+  - (* RT_G_cs *)
+    apply (CI_notask_step s); auto; fsimpl; ci_side.
+    intros t c Hf. destruct (Hrws _ _ Hf). discriminate.
+Qed.
+
+Lemma CI_child_exit s o : LkS s -> CI s -> CI (do_child_exit s o).
+Proof.
+  intros HL HC. unfold do_child_exit. destruct (alive s); auto.
+  apply (CI_fields s); auto.
+Qed.
+
+Theorem CI_step s l : LkS s -> FI s -> CI s -> CI (step s l).
+Proof.
+  intros HL HF HC. destruct l; simpl.
+  - destruct (find_task (tasks s) t) eqn:Ef.
+    + unfold do_call. rewrite Ef. exact HC.
+    + destruct (nl_started s) eqn:Est; [apply CI_do_call_started | apply CI_do_call_fresh]; auto.
+  - apply CI_do_step; auto.
+  - apply CI_step_run; auto.
+  - apply CI_child_exit; auto.
+Qed.
+
+Lemma CI_init a b c d : CI (init_state a b c d).
+Proof.
+  constructor; simpl; auto; try discriminate.
+  intros t c0 p H. discriminate.
+Qed.
+
+Theorem all_inv a b c d ls :
+  let s := run_labels (init_state a b c d) ls in LkS s /\ FI s /\ CI s.
+Proof.
+  unfold run_labels. generalize (LkS_init a b c d) (FI_init a b c d) (CI_init a b c d).
+  generalize (init_state a b c d).
+  induction ls as [|l ls IH]; intros s HL HF HC; simpl; auto.
+  apply IH; [apply LkS_step | apply FI_step | apply CI_step]; auto.
+Qed.
